@@ -12,7 +12,26 @@ TEXT_KINDS = ["txt", "csv", "html", "md", "json", "tsv", "htm", "TXT", "Csv"]
 BAD_KINDS = ["exe", "bin", "png", "", "zip", "tar.gz", "7z", "tgz"]  # unsupported types and nested archives
 
 
+def nested_archive(name: str, token: str) -> bytes:
+    """a real archive of the kind the member's extension announces, holding one text file with the token"""
+    inner = [("inner.txt", f"nested {token}\n".encode())]
+    n = name.lower()
+    if n.endswith(".zip"):
+        return corpus._zip(inner)
+    if n.endswith(".7z"):
+        return write_7z([{"name": "inner.txt", "data": inner[0][1]}], method="copy")
+    if n.endswith((".tar.gz", ".tgz", ".gz")):
+        return corpus._tar(inner, "w:gz")
+    if n.endswith((".tar.bz2", ".tbz2", ".bz2")):
+        return corpus._tar(inner, "w:bz2")
+    if n.endswith((".tar.xz", ".txz", ".xz")):
+        return corpus._tar(inner, "w:xz")
+    return corpus._tar(inner)
+
+
 def mini_doc(kind: str, token: str, pad: int = 0) -> bytes:
+    if kind.startswith("nested:"):
+        return nested_archive(kind[7:], token)
     k = kind.lower()
     filler = ("lorem " * (pad // 6 + 1))[:pad]
     if k in ("txt", "md", "bin", "exe", "png", ""):
